@@ -371,7 +371,8 @@ def _compute_integral_ir(
             "entity_type": entity_type,
             "shape": (),
             "coordinate_element_hash": itg_data.domain.ufl_coordinate_element().basix_hash(),
-            "number_coordinate_dofs": itg_data.domain.ufl_coordinate_element().dim,
+            # Number of nodes of the (blocked) coordinate element
+            "number_coordinate_dofs": itg_data.domain.ufl_coordinate_element().basix_element.dim,
         }
         # Initial population of what will become the IntegralIR
         ir = {
@@ -687,7 +688,7 @@ def _compute_expression_ir(
         expr_domain.ufl_coordinate_element().basix_hash() if expr_domain is not None else 0
     )
     base_ir["number_coordinate_dofs"] = (
-        0 if expr_domain is None else expr_domain.ufl_coordinate_element().dim
+        0 if expr_domain is None else expr_domain.ufl_coordinate_element().basix_element.dim
     )
 
     weights = np.array([1.0] * points.shape[0])
